@@ -221,7 +221,7 @@ def register3(R, P):
     ]
     R.contract(M + "::TraceManager.clear_with_descs",
         params={"self": "ModelImpl", "node": "node"},
-        requires=PRE + ["is_item(node)"],
+        requires=PRE,      # node: an element, or the object node (cells,) of an uncached cells
         ensures=[
             # C06: precisely the element and its transitive dependents are discarded ...
             "EXACT:: all(implies(is_item(n), (key(n) in obj(n).data) == (old(key(n) in obj(n).data) and not (old(has_node(self.tracegraph, node)) and n in old(reach(self.tracegraph, node)))))"
@@ -401,8 +401,11 @@ def register6(R, P):
                         "all(implies(k in self.data, has_node(self.model.tracegraph, item(self, k))) for k in every('key'))"],
         ensures=[
             # C06: inputs survive clear(); every computed value of this cells is gone
-            "INPUTS-KEPT:: implies(not clear_input, all(implies(old(k in self.input_keys), k in self.data and k in self.input_keys and self.data[k] == old(self.data[k])) for k in every('key')))",
-            "COMPUTED-GONE:: all(implies(k in self.data, old(k in self.data) and not clear_input and k in self.input_keys) for k in every('key'))",
+            "INPUTS-KEPT:: implies(not clear_input, all(implies(is_item(n) and obj(n) is self and old(key(n) in self.input_keys),"
+            " key(n) in self.data and key(n) in self.input_keys and self.data[key(n)] == old(self.data[key(n)])) for n in every('node')))",
+            "COMPUTED-GONE:: all(implies(is_item(n) and obj(n) is self and key(n) in self.data, old(key(n) in self.data) and not clear_input and key(n) in self.input_keys) for n in every('node'))",
+            # C09 (Q-2/Q-3): for an uncached cells the object node, and with it everything computed through the cells, is gone
+            "OBJNODE-GONE:: implies(not self.is_cached, not has_node(self.model.tracegraph, objnode(self)))",
             "OTHERS-KEPT:: all(implies(is_item(n) and key(n) in obj(n).data, old(key(n) in obj(n).data) and obj(n).data[key(n)] == old(obj(n).data[key(n)])) for n in every('node'))",
             "HELD:: HELD(self.model.tracegraph)", "GWF:: GWF(self.model.tracegraph)", "RGWF:: RGWF(self.model.refgraph)",
         ],
@@ -499,3 +502,24 @@ def register8(R, P):
         },
         modifies=MOD, alloc=True)
     P["_model"]["graph"] += ["TraceManager.clear_attr_referrers"]
+
+
+def register9(R, P):
+    PRE = ["GWF(self.model.tracegraph)", "RGWF(self.model.refgraph)", "HELD(self.model.tracegraph)", "SEP()",
+           "all(c.data is not d.input_keys for c in every('CellsImpl') for d in every('CellsImpl'))",
+           "all(implies(k in self.input_keys, k in self.data) for k in every('key'))", "INPUT_BARE(self.model.tracegraph)",
+           "all(implies(k in self.data, has_node(self.model.tracegraph, item(self, k))) for k in every('key'))"]
+    R.contract(C + "::CellsImpl.on_namespace_change",
+        params={"self": "CellsImpl"},
+        requires=PRE,
+        ensures=[
+            # C02 (by-name row) / C09: after a change of the names a formula can see, no computed value of this cells remains,
+            # nor -- for an uncached cells -- anything computed through it; values assigned by the user stay (C06)
+            "COMPUTED-GONE:: all(implies(is_item(n) and obj(n) is self and key(n) in self.data, key(n) in self.input_keys) for n in every('node'))",
+            "OBJNODE-GONE:: implies(not self.is_cached, not has_node(self.model.tracegraph, objnode(self)))",
+            "INPUTS-KEPT:: all(implies(is_item(n) and obj(n) is self and old(key(n) in self.input_keys), key(n) in self.data and self.data[key(n)] == old(self.data[key(n)])) for n in every('node'))",
+            "HELD:: HELD(self.model.tracegraph)", "GWF:: GWF(self.model.tracegraph)",
+        ],
+        modifies=["content(self.model.tracegraph)", "content(self.model.refgraph)", "every_content('dict[key,val]')", "every_content('set[key]')"],
+        alloc=True)
+    P["_model"]["cells"] += ["CellsImpl.on_namespace_change"]
